@@ -8,9 +8,10 @@ from .c01 import ASSUME
 def configs(ctx):
     fwd, inv, sib = [], [], []
     pairs = [(2, 4), (4, 2), (4, 8), (8, 6), (6, 6)] if ctx.quick else \
-        [(2, 4), (4, 2), (4, 8), (8, 6), (6, 6), (2, 10), (12, 4), (10, 16), (20, 8), (6, 2)]
+        [(2, 4), (4, 2), (4, 8), (8, 6), (6, 6), (2, 10), (12, 4), (10, 16), (20, 8), (6, 2), (14, 2), (2, 2), (8, 8),
+         (16, 6), (6, 12)]
     sizes = [(16, 20), (9, 13), (5, 12), (12, 5), (3, 3)] if ctx.quick else \
-        [(16, 20), (9, 13), (5, 12), (12, 5), (3, 3), (2, 31), (24, 7), (17, 17), (8, 8)]
+        [(16, 20), (9, 13), (5, 12), (12, 5), (3, 3), (2, 31), (24, 7), (17, 17), (8, 8), (33, 6), (10, 10), (21, 29)]
     for mode in dwtlib.MODES5:
         for (Lc, Lr) in pairs:
             for (H, W) in sizes:
